@@ -58,14 +58,19 @@ func checkPlantedCase(c plantedCase, rec *Rec) error {
 		what := fmt.Sprintf("[%s; %d-partite graph with a planted K%d on %d vertices, edges %v]", rep, c.K, c.K, c.N, clipEdges(g))
 		var chi, omega int
 		var col []int
-		if p := try(func() { chi, col = graph.ChromaticNumber(gr) }); p != nil {
-			return fmt.Errorf("%s ChromaticNumber panicked: %v", what, p)
-		}
-		if chi != c.K {
-			return fmt.Errorf("%s ChromaticNumber = %d, the graph is %d-partite and contains K%d", what, chi, c.K, c.K)
-		}
-		if !properOn(g, col) || distinctCount(col) != c.K {
-			return fmt.Errorf("%s ChromaticNumber colouring %v is not a proper colouring with exactly %d colours", what, col, c.K)
+		// the exact colouring functions are exponential (refuting K-1 colours on a sparse 46-vertex graph ran for more than
+		// an hour): they are asked up to 26 (thorough 34) vertices, the clique functions on every size
+		colouring := c.N <= sz(26, 34)
+		if colouring {
+			if p := try(func() { chi, col = graph.ChromaticNumber(gr) }); p != nil {
+				return fmt.Errorf("%s ChromaticNumber panicked: %v", what, p)
+			}
+			if chi != c.K {
+				return fmt.Errorf("%s ChromaticNumber = %d, the graph is %d-partite and contains K%d", what, chi, c.K, c.K)
+			}
+			if !properOn(g, col) || distinctCount(col) != c.K {
+				return fmt.Errorf("%s ChromaticNumber colouring %v is not a proper colouring with exactly %d colours", what, col, c.K)
+			}
 		}
 		if p := try(func() { omega = graph.CliqueNumber(gr) }); p != nil {
 			return fmt.Errorf("%s CliqueNumber panicked: %v", what, p)
@@ -87,7 +92,7 @@ func checkPlantedCase(c plantedCase, rec *Rec) error {
 			rec.Label("maximal-cliques-skipped")
 		}
 		for _, k := range []int{c.K - 1, c.K, c.K + 1} {
-			if k < 0 {
+			if k < 0 || !colouring {
 				continue
 			}
 			var ok bool
@@ -128,6 +133,6 @@ func checkPlantedCase(c plantedCase, rec *Rec) error {
 
 func init() {
 	RegisterRapid("C09_planted_chi_omega",
-		"rapid: random K-partite graphs (K in 1..6, density 1/8..7/8 between classes) with a planted K-clique on 9..40 (thorough 48) vertices, relabelled by a uniform permutation, so chi = omega = K by construction: ChromaticNumber (value and witness), CliqueNumber, IsKColorable(K-1) = false, IsKColorable(K) and (K+1) = true with valid witnesses, GreedyColor proper, AllMaximalCliques against an independent recursion (each clique once, delivered cliques never change afterwards); dense, sparse and view inputs. Covers sizes beyond the O(3^n) oracle. Non-trivial: n >= 12 and K >= 3.",
+		"rapid: random K-partite graphs (K in 1..6, density 1/8..7/8 between classes) with a planted K-clique on 9..40 (thorough 48) vertices (the exponential colouring functions up to 26 / 34 vertices), relabelled by a uniform permutation, so chi = omega = K by construction: ChromaticNumber (value and witness), CliqueNumber, IsKColorable(K-1) = false, IsKColorable(K) and (K+1) = true with valid witnesses, GreedyColor proper, AllMaximalCliques against an independent recursion (each clique once, delivered cliques never change afterwards); dense, sparse and view inputs. Covers sizes beyond the O(3^n) oracle. Non-trivial: n >= 12 and K >= 3.",
 		Budget{Checks: 1500, Shards: 2}, Budget{Checks: 4000, Shards: 16}, genPlantedCase, checkPlantedCase)
 }
